@@ -80,6 +80,12 @@ for pid in sorted(x for x in os.listdir(out_root) if os.path.isdir(os.path.join(
         json.dump(meta, open(os.path.join(dst, "meta.json"), "w"), indent=1, ensure_ascii=False)
         rows.append(meta)
 
+# the index covers every kept change, whichever run imported it
+rows = []
+for name in sorted(os.listdir(dst_root)):
+    mp = os.path.join(dst_root, name, "meta.json")
+    if os.path.isfile(mp):
+        rows.append(json.load(open(mp)))
 with open(os.path.join(dst_root, "INDEX.md"), "w") as f:
     f.write("# Seeded changes\n\n")
     f.write("Each change was written by a fresh sub-agent that saw only the text of one property and its own scratch worktree of /repo, "
